@@ -89,7 +89,12 @@ class ClassGen:
             stmts.append(('rule', 'Expr', None, ('optable', ('ref', 'Item'), [
                 ('postfix', [('str', '!')]), ('prefix', [('str', '-')]), ('left', [('str', '*')]), ('left', [('str', '+')])])))
             forms.append(('star', ('left', ('ref', 'Expr'), ('str', ';'))))
-        stmts.insert(0, ('rule', 'start', None, r.choice(forms)))
+        if r.random() < 0.3:
+            # the start rule itself is a class (its span begins where parsing began, before the
+            # leading ignorable text)
+            stmts.insert(0, ('class', 'start', None, [('field', 'body', r.choice(forms)), ('field', 'tail', ('opt', ('str', '$')))]))
+        else:
+            stmts.insert(0, ('rule', 'start', None, r.choice(forms)))
         c = r.random()
         if c < 0.3:
             stmts.append(('ignore', ('re', '[ \\n]+', False)))
